@@ -12,7 +12,8 @@ RULE = ("for each set, for valid (pk, M, sig) triples: EVERY single-bit flip of 
         "Non-trivial = every altered input; distinct by (set, altered triple).")
 ASSUMPTIONS = ["rejection of altered data is a strong-unforgeability statement resting on SHAKE-256 collision resistance and SelfTargetMSIS; what is "
                "proved are the structural facts (length gate, strict decoding, full challenge comparison, framing injectivity); the negatives are evaluated",
-               "a comparison of only a prefix of the challenge has no findable failing input and is only caught through the model correspondence"]
+               "a verifier that compares only part of the challenge accepts no bit-flipped genuine signature (the flipped byte still changes the sampled challenge); "
+               "it is caught by C03's signatures from a modified signer that alters one byte of the commitment hash, and through the model correspondence"]
 TIMEOUT = {"quick": 1500, "thorough": 3400}
 
 
